@@ -58,6 +58,7 @@ var pRets = []retSpec{
 	{"base.u32[..= 7]", "v & 7"},
 	{"base.bool", "v > 2"},
 	{"base.status", "ok"},
+	{"base.status", "zs"}, // a status VARIABLE as the only return (no literal "return ok" anywhere)
 	{"base.u64", "v as base.u64"},
 	{"slice base.u8", "this.g[.. 2]"},
 	{"base.u8", "c"},
@@ -172,7 +173,7 @@ func (s progSpec) compatible() bool {
 	default:
 		caps += " pure notcoroutine"
 	}
-	if s.eff == 2 || s.ret == 4 {
+	if s.eff == 2 || pRets[s.ret].typ == "base.status" {
 		caps += " status"
 	}
 	for _, f := range s.frags {
@@ -182,7 +183,7 @@ func (s progSpec) compatible() bool {
 			}
 		}
 	}
-	if s.ret == 6 && s.eff == 0 {
+	if pRets[s.ret].typ == "slice base.u8" && s.eff == 0 {
 		return false // returning a slice of a field from a pure function: keep the grid to impure ones
 	}
 	return true
@@ -196,6 +197,9 @@ func (s progSpec) methodText() string {
 		b.WriteString(" " + pRets[s.ret].typ)
 	}
 	b.WriteString(" {\n    var v : base.u32\n    var c : base.u8\n")
+	if pRets[s.ret].expr == "zs" {
+		b.WriteString("    var zs : base.status\n")
+	}
 	seenVar := map[string]bool{}
 	for _, f := range s.frags {
 		if v := pFrags[f].vars; v != "" && !seenVar[v] {
